@@ -450,6 +450,23 @@ impl GroupAggregator {
     }
 
     pub fn update(&mut self, column_value: Value) -> ExecutionResult<Option<Value>> {
+        // The running sums of integers are checked: an overflow is reported instead of wrapping (or panicking)
+        match (&*self, &column_value) {
+            (GroupAggregator::Sum(Value::Int(sum)), Value::Int(value))
+            | (GroupAggregator::Average { sum: Value::Int(sum), .. }, Value::Int(value))
+            | (GroupAggregator::StandardDeviation { sum: Value::Int(sum), .. }, Value::Int(value)) => {
+                sum.checked_add(*value).ok_or(ExecutionError::NumericOverflow)?;
+            }
+            _ => {}
+        }
+
+        if let (GroupAggregator::StandardDeviation { sum_square, .. }, Value::Int(value)) = (&*self, &column_value) {
+            let square = value.checked_mul(*value).ok_or(ExecutionError::NumericOverflow)?;
+            if let Value::Int(sum_square) = sum_square {
+                sum_square.checked_add(square).ok_or(ExecutionError::NumericOverflow)?;
+            }
+        }
+
         match self {
             GroupAggregator::Sum(sum) => {
                 sum.modify_same_type_numeric_nullable(
